@@ -18,7 +18,9 @@ from ..sim.core import CoreWorld
 TITLE = "expose sensor"
 GA = "1/1/1"
 # (cooldown, periodic_send, value_type)
-CONFIGS = [(10, 0, "percentU8"), (10, 30, "percentU8"), (0, 30, "percentU8"), (0, 0, "percentU8"), (10, 0, "binary"), (10, 30, "binary")]
+# (cooldown, periodic_send, value type[, respond_to_read])
+CONFIGS: list[tuple[Any, ...]] = [(10, 0, "percentU8"), (10, 30, "percentU8"), (0, 30, "percentU8"), (0, 0, "percentU8"), (10, 0, "binary"), (10, 30, "binary"),
+                                  (10, 0, "percentU8", False), (10, 5, "percentU8")]
 EVENTS = ["set:A", "set:B", "set:A:skip", "set:B:skip", "read", "init:B", "in-write:A", "DISCONNECT", "CONNECT", "+1", "+5", "+10", "+30"]
 HORIZON = 45.0
 T0 = 1000.0
@@ -41,11 +43,12 @@ STATES: set[Any] = set()
 
 def run_case(ci: int, seq: tuple[int, ...]) -> list[tuple[str, str]]:
     cfg = CONFIGS[ci]
-    cd, per, vt = cfg
+    cd, per, vt = cfg[:3]
+    respond = cfg[3] if len(cfg) > 3 else True
     viols: list[tuple[str, str]] = []
     with CoreWorld(t0=T0, rate_limit=0) as w:
         xknx, loop = w.xknx, w.loop
-        dev = ExposeSensor(xknx, "expose", group_address=GA, value_type=vt, cooldown=cd, periodic_send=per)
+        dev = ExposeSensor(xknx, "expose", group_address=GA, value_type=vt, cooldown=cd, periodic_send=per, respond_to_read=respond)
         xknx.devices.async_add(dev)
         w.start(connected=True)
         names = {repr(payload_of(cfg, "A")): "A", repr(payload_of(cfg, "B")): "B"}
@@ -113,9 +116,10 @@ def run_case(ci: int, seq: tuple[int, ...]) -> list[tuple[str, str]]:
 
 
 def check_log(cfg: tuple[Any, ...], log: list[tuple[float, str, str]], end_events: float, end: float, trace: list[str]) -> list[tuple[str, str]]:
-    cd, per, _vt = cfg
+    cd, per, _vt = cfg[:3]
+    respond = cfg[3] if len(cfg) > 3 else True
     viols: list[tuple[str, str]] = []
-    ctx = f"config=(cooldown={cd}, periodic={per}, {cfg[2]}) trace={trace} log={[(round(t - T0, 3), k, n) for t, k, n in log]}"
+    ctx = f"config=(cooldown={cd}, periodic={per}, {cfg[2]}, respond_to_read={respond}) trace={trace} log={[(round(t - T0, 3), k, n) for t, k, n in log]}"
 
     def connected_throughout(a: float, b: float) -> bool:
         conn = False
@@ -189,6 +193,11 @@ def check_log(cfg: tuple[Any, ...], log: list[tuple[float, str, str]], end_event
         ok = {n} if n else set()
         if prior and prior[-1][0] == "in-write":
             ok.add(prior[-1][1])
+        if not respond:
+            # respond_to_read=False: reads are not this sensor's business - no answer (and, clause 2, no effect on what is sent when)
+            if answers:
+                viols.append(("read-answered-although-respond_to_read-is-off", f"read at t+{t - T0}: {answers}; {ctx}"))
+            continue
         if not ok:
             if answers:
                 viols.append(("read-answered-without-a-value", f"read at t+{t - T0}: {answers}; {ctx}"))
